@@ -73,6 +73,8 @@ def match_known(known, prop, viol, ev):
             continue
         if "rule" in sig and not any(sig["rule"] in r for r in viol["rules"]):
             continue
+        if "wedge" in sig and (not isinstance(ev, dict) or ev.get("wedge") != sig["wedge"]):
+            continue
         if "driver_prefix" in sig and not viol.get("driver", "").startswith(sig["driver_prefix"]):
             continue
         return f
@@ -150,8 +152,100 @@ def run_apalache_job(job, scratch):
             "tdrv": 0.0, "ttlc": time.time() - t0, "sample": [], "mc": True, "proof": True}
 
 
+def run_lin_job(job, scratch):
+    """Linearizability search: driver 'conc' -> NfsLin.tla. A history is accepted iff the search consumed all its lines."""
+    trace = os.path.join(scratch, job["name"] + ".ndjson")
+    cmd = [os.path.join(BIN, "vdrive")] + job["driver"] + ["-out", trace]
+    t0 = time.time()
+    p = subprocess.run(cmd, capture_output=True, text=True, timeout=job.get("driver_timeout", 1800), cwd=scratch)
+    if p.returncode != 0:
+        raise Infra("driver failed (%d): %s\n%s" % (p.returncode, " ".join(cmd), (p.stdout + p.stderr)[-3000:]))
+    tdrv = time.time() - t0
+    out, st = run_tlc("NfsLin.tla", "NfsLin.cfg", scratch, env={"TRACE": trace}, timeout=job.get("tlc_timeout", 3000), xmx="6g")
+    if "No error has been found" not in out:
+        raise Infra("NfsLin search failed on %s:\n%s" % (trace, out[-3000:]))
+    lines = open(trace).readlines()
+    n = len(lines)
+    hw = {}
+    starts = {}
+    for ln in out.splitlines():
+        m = re.match(r'"HW (-?\d+) (\d+) (\d+)"', ln.strip())
+        if m:
+            hw[int(m.group(1))] = int(m.group(3))
+            starts[int(m.group(1))] = int(m.group(2))
+    order = sorted(starts, key=lambda k: starts[k])
+    viols = []
+    seen_sv = set()
+    for ln in out.splitlines():
+        ln = ln.strip()
+        if ln.startswith('"SVIOL '):
+            v = json.loads(json.loads(ln)[6:])
+            key = (v["line"], tuple(v["rules"]))
+            if key in seen_sv:
+                continue
+            seen_sv.add(key)
+            viols.append({"line": v["line"], "seg": v["seg"], "rules": v["rules"], "ev": "snap", "proc": "", "job": job["name"],
+                          "driver_cmd": job["driver"], "event": {"ev": "snap"}, "driver": "conc", "seed": 0, "context": []})
+    ncalls = 0
+    sample = []
+    for idx, sg in enumerate(order):
+        end = starts[order[idx + 1]] if idx + 1 < len(order) else n + 1
+        evs = [json.loads(x) for x in lines[starts[sg] - 1:end - 1]]
+        calls = [e["call"] for e in evs if e.get("ev") == "inv"]
+        ncalls += len(calls)
+        if not sample:
+            sample = [summ(c) for c in calls[-12:]]
+        if hw.get(sg, 0) >= end:
+            continue
+        stuck = hw.get(sg, starts[sg])
+        noreply = [c for c in calls if c["st"] in ("TIMEOUT", "PANIC")]
+        if noreply:
+            ev = noreply[0]
+            rules = ["ALL,C06,C11:no-reply-" + ev["st"]]
+        else:
+            ev = json.loads(lines[stuck - 1]) if stuck - 1 < len(lines) else {}
+            if ev.get("ev") == "ret":   # the call that cannot return: find its invoke
+                want = ev["call"]["i"]
+                ev = next((c for c in calls if c["i"] == want), ev)
+            else:
+                ev = ev.get("call", ev)
+            rules = ["C03:history-has-no-linearization"]
+        reset = evs[0]
+        viols.append({"line": stuck, "seg": sg, "rules": rules, "ev": "inv", "proc": ev.get("proc", ""), "job": job["name"],
+                      "driver_cmd": job["driver"], "event": ev if isinstance(ev, dict) else {}, "driver": reset.get("driver", ""),
+                      "seed": reset.get("seed", 0),
+                      "stuck_at": (lines[stuck - 1][:300] if stuck - 1 < len(lines) else "end"),
+                      "context": [("inv c%d " % e["cl"]) + summ(e["call"]) if e["ev"] == "inv" else "ret c%d %d" % (e["cl"], e["call"]["i"])
+                                  for e in evs[:stuck - starts[sg] + 1] if e.get("ev") in ("inv", "ret")][-60:]})
+    # structural pass: the final snapshot of every history (also of those without a linearization)
+    strace = trace + ".snaps"
+    with open(strace, "w") as f:
+        for k, ln in enumerate(lines):
+            if '"ev":"reset"' in ln[:300] and ln.startswith('{"ev":"reset"'):
+                f.write(ln)
+            elif ln.startswith('{"ev":"snap"'):
+                f.write(ln.replace('"who":"run"', '"who":"conc"', 1))
+    out2, st2 = run_tlc("NfsTrace.tla", "NfsTrace.cfg", scratch, env={"TRACE": strace}, timeout=1200)
+    v2, consumed = parse_trace_out(out2)
+    if consumed is None or consumed[0] != consumed[1]:
+        raise Infra("structural pass failed on %s\n%s" % (strace, out2[-2000:]))
+    have = {(v["seg"], tuple(v["rules"])) for v in viols}
+    for v in v2:
+        if (v["seg"], tuple(v["rules"])) in have:
+            continue
+        viols.append({"line": v["line"], "seg": v["seg"], "rules": v["rules"], "ev": "snap", "proc": "", "job": job["name"],
+                      "driver_cmd": job["driver"], "event": {"ev": "snap"}, "driver": "conc", "seed": 0, "context": []})
+    os.remove(strace)
+    os.remove(trace)
+    return {"name": job["name"], "viols": viols, "events": n, "segments": len(order), "calls": ncalls,
+            "states": st["distinct"] + st2["distinct"], "transitions": st["generated"] + st2["generated"], "tdrv": tdrv,
+            "ttlc": st["wall"] + st2["wall"], "sample": sample}
+
+
 def run_job(job, scratch):
     """job: {name, driver: [args...], module, cfg}. Returns result dict."""
+    if job.get("kind") == "lin":
+        return run_lin_job(job, scratch)
     if job.get("kind") == "mc":
         return run_mc_job(job, scratch)
     if job.get("kind") == "apalache":
@@ -309,6 +403,15 @@ def plan(prop, tier, seed, known):
             jobs.append(seq_job("struct%d" % i, seed * 100 + i, "dirs,names,mix,many,data", 5 if q else 10, 200 if q else 400, av,
                                 disk=8000, extra=["-snapeach", "5"]))
         jobs.append(probe_job(prop, av))
+        # concurrent histories: the structure at the quiescent end of each history (and the reference state reached by the
+        # linearization) - directed window schedules and random conflicting clients
+        parts = 32
+        for k in ([(seed * 4 + j) % parts for j in range(3)] if q else range(parts)):
+            jobs.append({"name": "win%d" % k, "kind": "lin", "driver": ["windows", "-part", str(k), "-parts", str(parts)]})
+        for i in range(3 if q else 24):
+            jobs.append({"name": "lin%d" % i, "kind": "lin",
+                         "driver": ["conc", "-seed", str(seed * 100 + 70 + i), "-segs", "10" if q else "40", "-steps", "10",
+                                    "-clients", str(2 + i % 3), "-avoid", av]})
     elif prop == "C05":
         n = 5 if q else 40
         for i in range(n):
@@ -343,6 +446,22 @@ def plan(prop, tier, seed, known):
                                   extra=["-loss", "2" if q else "5", "-cont", "3", "-nested", "1"]))
         jobs.append(seq_job("unstseq", seed, "data,mix", 4 if q else 16, 250, av))
         jobs.append(probe_job(prop, av))
+    elif prop == "C03":
+        n = 8 if q else 64
+        for i in range(n):
+            jobs.append({"name": "lin%d" % i, "kind": "lin",
+                         "driver": ["conc", "-seed", str(seed * 100 + i), "-segs", "10" if q else "40", "-steps", "10" if q else "14",
+                                    "-clients", str(2 + i % 3), "-avoid", av]})
+        parts = 32
+        sel = range(parts) if not q else [(seed * 4 + k) % parts for k in range(4)]
+        for k in sel:
+            jobs.append({"name": "win%d" % k, "kind": "lin", "driver": ["windows", "-part", str(k), "-parts", str(parts)]})
+    elif prop == "C14":
+        n = 4 if q else 32
+        for i in range(n):
+            jobs.append({"name": "locks%d" % i, "module": "LockTrace.tla", "cfg": "LockTrace.cfg",
+                         "driver": ["conc", "-access", "-seed", str(seed * 100 + i), "-segs", "8" if q else "30", "-steps", "12",
+                                    "-clients", str(2 + i % 3), "-avoid", av]})
     elif prop == "C19":
         n = 4 if q else 24
         for i in range(n):
@@ -398,7 +517,7 @@ def tags_of(rule):
 def write_replay(prop, v):
     os.makedirs(os.path.join(VERIF, "replays"), exist_ok=True)
     body = {"property": prop, "driver_cmd": v["driver_cmd"], "job": v["job"], "segment": v["seg"], "seed": v.get("seed"),
-            "driver": v.get("driver"), "line": v["line"], "rules": v["rules"], "want": v.get("want"), "detail": v.get("detail"), "event": v["event"], "context": v.get("context", [])}
+            "driver": v.get("driver"), "line": v["line"], "rules": v["rules"], "want": v.get("want"), "detail": v.get("detail"), "stuck_at": v.get("stuck_at"), "event": v["event"], "context": v.get("context", [])}
     h = hashlib.sha1(json.dumps(body, sort_keys=True).encode()).hexdigest()[:10]
     path = os.path.join(VERIF, "replays", "%s-%s.json" % (prop, h))
     json.dump(body, open(path, "w"), indent=1)
